@@ -48,11 +48,12 @@ def MC_RUNS(quick):
             ("FbLow", "FbLow_w4q", "fb_rdcn_low / fb_rdc1_low as coded, 4-bit digits: 3 trinomials + 4 pentanomials of degree 9, "
                                    "EVERY double-length value of degree <= 2m-2 against GModPoly", False)]
     if not quick:
-        runs += [("MCGF2m", "MCGF2m", "PURE lib/GF2m: every operand pair of GF(2^m), m = 3,4,5,7,8,9", True),
+        runs += [("MCGF2m", "MCGF2m_q", "PURE lib/GF2m: every operand pair of GF(2^m), m = 3,4,5,7", True),
                  ("MCGF2m", "MCGF2m", "ACCELERATED: every operand pair of GF(2^m), m = 3,4,5,7,8,9", False),
-                 ("MCBinCurve", "MCBinCurve_m5", "every curve over GF(8), GF(16) (second polynomials) and GF(32)", False),
+                 ("MCBinCurve", "MCBinCurve_m5", "GF(8) (second polynomial) and GF(32) (two field polynomials): every curve with a in "
+                                                 "{0,1,x,x+1} (both trace classes) and every b", False),
                  ("FbLow", "FbLow_w8full", "comb multiplication, 8-bit digits: every 2-digit a x 16 operands b, 14 single digits", False),
-                 ("FbLow", "FbLow_full", "fast reduction, 4-bit digits: 19 trinomials / pentanomials of degree 9..11, every "
+                 ("FbLow", "FbLow_full", "fast reduction, 4-bit digits: 15 trinomials / pentanomials of degree 9..11, every "
                                          "double-length value", False)]
     return runs
 
@@ -181,7 +182,16 @@ def run(tier, seed):
                                 full_variants=(i == 0))
         fld += a
         tails += b
-    part("w8p8-field", "w8p8", fld + tails, nofork=True, mps=3000)
+    if quick:
+        part("w8p8-field", "w8p8", fld + tails, nofork=True, mps=3000)
+    else:
+        # thorough: the exhaustive field (every element x 13 routines) in slices, the other fields together
+        first = [ln for ln in fld if ln.startswith(tf[0].sel + " ")]
+        rest = [ln for ln in fld if not ln.startswith(tf[0].sel + " ")]
+        step = 600000
+        for j in range(0, len(first), step):
+            part("w8p8-field-%s-%d" % (tf[0].sel, j // step), "w8p8", first[j:j + step], nofork=True, mps=3000)
+        part("w8p8-field", "w8p8", rest + tails, nofork=True, mps=3000)
     tc = gen_fb.tiny_curves()
     cover["w8p8"]["curves"] = [c.name for c in tc]
     grp, gt, mul, lod = [], [], [], []
